@@ -30,17 +30,18 @@ let is_nan_bits (b : BZ.t) =
   let m = BZ.logand b (BZ.pred (BZ.shift_left BZ.one 52)) in
   BZ.equal e (BZ.of_int 0x7ff) && not (BZ.equal m BZ.zero)
 
+(* "<ValueType>:<Go type> <value>", the form the harness prints *)
 let show_value = function
-  | VFlag b -> "flag " ^ (if b then "1" else "0")
-  | VInt z -> "int " ^ zs z
-  | VUint z -> "uint " ^ zs z
-  | VFloat f -> "float " ^ zs (bits_of_f64 f)
+  | VFlag b -> "flag:bool " ^ (if b then "1" else "0")
+  | VInt z -> "int:int64 " ^ zs z
+  | VUint z -> "uint:uint64 " ^ zs z
+  | VFloat f -> "float:float64 " ^ zs (bits_of_f64 f)
 
 (* NaN payload / sign is not part of the property: two NaNs agree *)
 let same_value model obs =
   model = obs ||
   (match String.split_on_char ' ' model, String.split_on_char ' ' obs with
-   | ["float"; a], ["float"; b] -> is_nan_bits (BZ.of_string a) && is_nan_bits (BZ.of_string b)
+   | ["float:float64"; a], ["float:float64"; b] -> is_nan_bits (BZ.of_string a) && is_nan_bits (BZ.of_string b)
    | _ -> false)
 
 let parse_enum_op tok =
